@@ -12,6 +12,10 @@ package hsrv
 //@   pure
 //@   trusted
 
+//@ func Server.requestLogger(s, r) (l)
+//@   props C11
+//@   ensures nonnil: l != nil
+
 // ---- operator notices (C10): the line sent is the formatted message, and
 // client-derived text is never in the format position.
 
@@ -44,3 +48,122 @@ package hsrv
 //@   ghost n int = 0
 //@   on enter Server.ErrorLogf(ss, f, vv): assert(ss == s && sprintf(f, vv) == "[" + remoteHost(r) + "] " + sprintf(format, v), "notice_is_host_plus_message_verbatim"); n++
 //@   ensures one_line: n == 1
+
+// ---- handlers (C01, C02, C03): the transport writer/reader go to the broker
+// and nowhere else, with the path value as key.
+
+//@ func Server.inputHandler(s, w, r)
+//@   props C01 C02
+//@   ghost n int = 0
+//@   flows w: Broker.ConnectIn
+//@   on enter Broker.ConnectIn(b, c, l, a, ww, k): assert(b == s.iob && ww == w && k == r.PathValue(idParam) && c == r.Context() && a == remoteHost(r), "callshape"); n++
+//@   ensures once: n == 1
+
+//@ func Server.outputHandler(s, w, r)
+//@   props C01 C03
+//@   assumes body: r.Body != nil
+//@   ghost n int = 0
+//@   on enter Broker.ConnectOut(b, c, l, a, rr, k): assert(b == s.iob && rr == r.Body && k == r.PathValue(idParam) && c == r.Context() && a == remoteHost(r), "callshape"); n++
+//@   ensures once: n == 1
+
+//@ func Server.inOutHandler(s, w, r)
+//@   props C01 C06
+//@   assumes body: r.Body != nil
+//@   ghost n int = 0
+//@   on enter Broker.ConnectInOut(b, c, l, a, ww, rr): assert(b == s.iob && ww == w && rr == r.Body && c == r.Context(), "callshape"); n++
+//@   ensures at_most_once: n <= 1
+
+// ---- static files (C09)
+//@ func Server.fileHandler(s, w, r)
+//@   props C09
+//@   ghost nNotice int = 0
+//@   ghost nOpen int = 0
+//@   ghost nErr int = 0
+//@   ghost nContent int = 0
+//@   ghost nFS int = 0
+//@   ghost fsh http.Handler = nil
+//@   ghost regular bool = false
+//@   flows w: http.Error, http.ServeContent, http.Handler.ServeHTTP
+//@   flows r: Server.requestLogger, Server.RLogf, Server.RErrorLogf, http.ServeContent, http.Handler.ServeHTTP, .URL
+//@   on enter Server.RLogf(ss, c, rr, fm, v): assert(nOpen == 0 && nErr == 0 && nContent == 0 && nFS == 0 && rr == r, "request_reported_before_anything_is_served"); nNotice++
+//@   on enter os.Open(name): assert(name == s.fdir, "only_the_configured_path_is_opened"); nOpen++
+//@   on call fs.FileMode.IsRegular(m) (b): regular = b
+//@   on enter http.Error(w0, msg, code): assert(w0 == w && nNotice == 1, "error_reply"); nErr++
+//@   on enter http.ServeContent(w0, r0, nm, mt, c): assert(w0 == w && r0 == r && c == f && regular && nNotice == 1, "single_file_served_from_the_opened_configured_file"); nContent++
+//@   on call http.FileServer(root) (h): assert(unboxStr(root) == s.fdir, "file_server_rooted_at_configured_dir"); fsh = h
+//@   on enter http.Handler.ServeHTTP(h, w0, r0): assert(h == fsh && fsh != nil && w0 == w && r0 == r && !regular && nNotice == 1, "directory_served_by_http_FileServer_of_configured_dir"); nFS++
+//@   ensures one_reply: nErr + nContent + nFS == 1 && nNotice == 1 && nOpen == 1
+
+// ---- callback script (C07, C05)
+//@ func Server.readTemplate(s) (t, err)
+//@   props C07
+//@   assigns none
+//@   ghost nRead int = 0
+//@   ghost data []byte = nil
+//@   ghost rdErr bool = false
+//@   ghost parsed *template.Template = nil
+//@   ghost parseErr bool = false
+//@   ghost nParse int = 0
+//@   on call os.ReadFile(name) (b, e): assert(name == s.tmplf && nRead == 0, "reads_the_configured_file"); nRead++; data = b; rdErr = e != nil
+//@   on call template.Template.Parse(tt, text) (p, e): assert(nRead == 1 && !rdErr && text == string(data), "parses_what_was_just_read"); parsed = p; parseErr = e != nil; nParse++
+//@   ensures default_when_unset: imp(s.tmplf == "", t == s.defTmpl && err == nil && nRead == 0)
+//@   ensures reread_every_call: imp(s.tmplf != "", nRead == 1)
+//@   ensures error_means_no_template: imp(s.tmplf != "" && (rdErr || parseErr), err != nil && t == nil)
+//@   ensures success_is_this_read: imp(s.tmplf != "" && !rdErr && !parseErr, err == nil && t == parsed && nParse == 1)
+
+//@ func Server.c2URL(s, r) (u, err)
+//@   props C07
+//@   requires tls: r.TLS != nil
+//@   requires listening: s.l.Listener != nil
+//@   ghost pfErr bool = false
+//@   ghost f string = ""
+//@   ghost h string = ""
+//@   ghost a string = ""
+//@   ghost aErr bool = false
+//@   ghost lh string = ""
+//@   ghost lp string = ""
+//@   ghost lpErr bool = false
+//@   ghost joined string = ""
+//@   ghost stage int = 0
+//@   on call http.Request.ParseForm(rr) (e): assert(rr == r && stage == 0, "parse_first"); pfErr = e != nil; stage = 1
+//@   on call url.Values.Get(vals, k) (v): assert(stage == 1 && k == C2Param && vals == r.Form, "form_value_c2"); f = v; stage = 2
+//@   on call http.Header.Get(hd, k) (v): assert(stage == 2 && f == "" && k == C2Param && hd == r.Header, "header_c2_only_if_no_parameter"); h = v; stage = 3
+//@   on call idna.ToASCII(x) (v, e): assert(stage == 3 && h == "" && x == r.Host, "host_only_if_no_header"); a = v; aErr = e != nil; stage = 4
+//@   on call net.SplitHostPort(x) (hh, pp, e): assert(stage == 4 && !aErr && a == "" && x == s.l.Addr().String(), "listen_port_only_for_sni"); lp = pp; lpErr = e != nil; stage = 5
+//@   on call net.JoinHostPort(hh, pp) (v): assert(stage == 5 && !lpErr && hh == r.TLS.ServerName && pp == lp && lp != HTTPSPort, "sni_plus_nondefault_listen_port"); joined = v; stage = 6
+//@   ensures parse_error: imp(pfErr, err != nil)
+//@   ensures parameter_first: imp(!pfErr && f != "", err == nil && u == f)
+//@   ensures then_header: imp(!pfErr && f == "" && h != "", err == nil && u == h)
+//@   ensures then_host: imp(!pfErr && f == "" && h == "" && stage >= 4 && !aErr && a != "", err == nil && u == a)
+//@   ensures bad_host: imp(!pfErr && f == "" && h == "" && stage >= 4 && aErr, err != nil)
+//@   ensures then_sni_default_port: imp(stage == 5 && !lpErr && lp == HTTPSPort, err == nil && u == r.TLS.ServerName)
+//@   ensures then_sni_with_port: imp(stage == 6, err == nil && u == joined)
+//@   ensures sni_needed_listen_port: imp(stage == 5 && lpErr, err != nil)
+//@   ensures out_of_ideas: imp(stage == 4 && !aErr && a == "" && r.TLS.ServerName == "", err != nil)
+//@   ensures sources_consulted_in_order: imp(err == nil, stage >= 2) && imp(stage >= 5, r.TLS.ServerName != "")
+
+//@ func Server.scriptHandler(s, w, r)
+//@   props C07 C05
+//@   assumes tls: r.TLS != nil
+//@   assumes listening: s.l.Listener != nil
+//@   ghost tmplv *template.Template = nil
+//@   ghost tmplErr bool = false
+//@   ghost c2 string = ""
+//@   ghost c2Err bool = false
+//@   ghost rnd uint64 = 0
+//@   ghost nRnd int = 0
+//@   ghost pOK bool = false
+//@   ghost execErr bool = false
+//@   ghost nExec int = 0
+//@   ghost nHeader int = 0
+//@   ghost code int = 0
+//@   ghost nBody int = 0
+//@   on call Server.readTemplate(ss) (t, e): tmplv = t; tmplErr = e != nil
+//@   on call Server.c2URL(ss, rr) (u, e): assert(rr == r && !tmplErr, "c2_from_this_request"); c2 = u; c2Err = e != nil
+//@   on call rand.Uint64() (n): rnd = n; nRnd++
+//@   on assign params(v): pOK = v.PubkeyFP == s.l.Fingerprint && v.URL == c2 && v.ID == strconv.FormatUint(rnd, 36) && nRnd == 1
+//@   on call template.Template.Execute(t, wr, data) (e): assert(t == tmplv && !tmplErr && !c2Err && pOK && boxes(data, params) && boxes(wr, b), "template_executed_with_fingerprint_callback_and_fresh_id_into_a_buffer"); execErr = e != nil; nExec++
+//@   on enter http.ResponseWriter.WriteHeader(w0, c): assert(w0 == w && nBody == 0, "status_before_body"); nHeader++; code = c
+//@   on enter bytes.Buffer.WriteTo(bb, w0): assert(bb == b && boxes(w0, w) && nExec == 1 && !execErr && nHeader == 0, "body_only_from_the_successfully_executed_buffer"); nBody++
+//@   ensures error_status_no_script: imp(tmplErr || c2Err || execErr, nBody == 0 && nHeader == 1 && code >= 400)
+//@   ensures script_once: imp(!tmplErr && !c2Err && !execErr, nBody == 1 && nExec == 1)
